@@ -212,4 +212,94 @@ theorem shrinkTo_blks (s : S) (blks : List Nat) (T N : Nat) (hl : blks.length = 
       · have : ¬ (T ≤ NDIRECT + NBLKBLK ∧ NDIRECT + NBLKBLK < n + 1) := by omega
         simp [this]
 
+/-- the read-only block map: the disk block serving file block `bn`, 0 for a hole -/
+def lookup (st : Store) (blks : List Nat) (bn : Nat) : Nat :=
+  if bn < NDIRECT then blks.getD bn 0
+  else if bn - NDIRECT < NBLKBLK then
+    (if blks.getD INDIRECT 0 = 0 then 0 else st (blks.getD INDIRECT 0) (bn - NDIRECT))
+  else
+    let o := bn - NDIRECT - NBLKBLK
+    if blks.getD DINDIRECT 0 = 0 then 0
+    else if st (blks.getD DINDIRECT 0) (o / NBLKBLK) = 0 then 0
+    else st (st (blks.getD DINDIRECT 0) (o / NBLKBLK)) (o % NBLKBLK)
+
+theorem indbmap0 (s : S) (root off : Nat) :
+    indbmap s root 0 off =
+      (if root = 0 then (s.alloc.2, s.alloc.1, s.alloc.1) else (s, root, root)) := by
+  unfold indbmap
+  by_cases hr : root = 0
+  · simp only [hr, if_true]
+    cases h : s.alloc with
+    | mk b s' =>
+      by_cases hb : b = 0
+      · simp [hb]
+      · simp [hb]
+  · simp [hr]
+
+theorem put_same (st : Store) (b i v : Nat) : (st.put b i v) b i = v := by simp [Store.put]
+
+/-- `bmap` does what its name says for the direct and single-indirect ranges: when it returns a
+    block for `bn`, the block map afterwards maps `bn` to that block. -/
+theorem bmap_maps (s : S) (blks : List Nat) (bn : Nat) (hl : blks.length = NDIRECT + 2)
+    (hbn : bn < NDIRECT + NBLKBLK) :
+    let r := bmap s blks bn
+    r.2.2.1 ≠ 0 → lookup r.1.st r.2.1 bn = r.2.2.1 := by
+  intro r hne
+  simp only [r] at hne ⊢
+  unfold bmap at hne ⊢
+  by_cases h1 : bn < NDIRECT
+  · simp only [h1, if_true] at hne ⊢
+    by_cases h0 : blks.getD bn 0 = 0
+    · simp only [h0, if_true] at hne ⊢
+      cases ha : s.alloc with
+      | mk b s' =>
+        simp only [ha] at hne ⊢
+        simp only [lookup, h1, if_true]
+        rw [getD_set _ _ _ _ (by simp only [NDIRECT] at *; omega)]
+        simp
+    · simp only [h0, if_false] at hne ⊢
+      simp [lookup, h1]
+  · have h2 : bn - NDIRECT < NBLKBLK := by omega
+    simp only [h1, if_false, h2, if_true] at hne ⊢
+    generalize hroot : blks.getD INDIRECT 0 = root at hne ⊢
+    -- unfold the two levels
+    unfold indbmap at hne ⊢
+    by_cases hr : root = 0
+    · simp only [hr, if_true] at hne ⊢
+      cases ha : s.alloc with
+      | mk a s1 =>
+        simp only [ha] at hne ⊢
+        by_cases ha0 : a = 0
+        · simp [ha0] at hne
+        · simp only [ha0, if_false, pow, Nat.div_one, Nat.mod_one, indbmap0] at hne ⊢
+          by_cases hn : s1.st a (bn - NDIRECT) = 0
+          · simp only [hn, if_true] at hne ⊢
+            cases hb : s1.alloc with
+            | mk b s2 =>
+              simp only [hb] at hne ⊢
+              have hb0 : b ≠ 0 := by simpa using hne
+              have : a ≠ 0 := ha0
+              simp only [ne_eq, hb0, not_false_eq_true, if_true, Ne.symm ha0, decide_true]
+              simp only [lookup, h1, if_false, h2, if_true, ha0, not_false_eq_true, decide_true]
+              rw [getD_set _ _ _ _ (by simp only [NDIRECT, INDIRECT] at *; omega)]
+              simp [ha0, put_same]
+          · simp only [hn, if_false] at hne ⊢
+            simp only [ne_eq, not_true_eq_false, if_false, Ne.symm ha0, not_false_eq_true, decide_true, if_true]
+            simp only [lookup, h1, if_false, h2, if_true, ha0, not_false_eq_true, decide_true]
+            rw [getD_set _ _ _ _ (by simp only [NDIRECT, INDIRECT] at *; omega)]
+            simp [ha0]
+    · simp only [hr, if_false, pow, Nat.div_one, Nat.mod_one, indbmap0] at hne ⊢
+      have hroot' : blks[INDIRECT]?.getD 0 = root := by simpa [List.getD_eq_getElem?_getD] using hroot
+      by_cases hn : s.st root (bn - NDIRECT) = 0
+      · simp only [hn, if_true] at hne ⊢
+        cases hb : s.alloc with
+        | mk b s2 =>
+          simp only [hb] at hne ⊢
+          have hb0 : b ≠ 0 := by simpa using hne
+          simp only [ne_eq, hb0, not_false_eq_true, if_true, not_true_eq_false, decide_false, if_false]
+          simp [lookup, h1, h2, hroot', hr, put_same]
+      · simp only [hn, if_false] at hne ⊢
+        simp [lookup, h1, h2, hroot', hr]
+
+
 end GoNfsd.Model.BlockMap
